@@ -641,18 +641,18 @@ def parse_top(text):
     return out
 
 
-def check_pagerank_top(ctx, top, ref, rel, abs_, cmd):
+def check_pagerank_top(ctx, top, ref, rel, abs_, cmd, kind=None):
     n = len(ref)
     want = min(20, n)
     if len(top) != want or [t[0] for t in top] != list(range(1, want + 1)):
-        ctx.violation("wrong-top-list", {"what": "expected %d rows numbered 1..%d" % (want, want), "rows": top[:25], "cmd": cmd})
+        ctx.violation(kind or "wrong-top-list", {"what": "expected %d rows numbered 1..%d" % (want, want), "rows": top[:25], "cmd": cmd})
         return
 
     def bound(x):
         return rel * abs(x) + abs_ + 1e-5 * abs(x)   # last term: 6 significant digits in the printout
     ids = [t[2] for t in top]
     if len(set(ids)) != len(ids) or any(i >= n for i in ids):
-        ctx.violation("wrong-top-list", {"what": "duplicate or unknown node ids", "rows": top, "cmd": cmd})
+        ctx.violation(kind or "wrong-top-list", {"what": "duplicate or unknown node ids", "rows": top, "cmd": cmd})
         return
     worst = 0.0
     for rank, val, vid in top:
@@ -661,7 +661,7 @@ def check_pagerank_top(ctx, top, ref, rel, abs_, cmd):
         err = abs(val - ref[vid])
         worst = max(worst, err / bound(ref[vid]))
         if err > bound(ref[vid]):
-            ctx.violation("rank-outside-tolerance", {"node": vid, "printed_rank_value": val, "power_iteration": ref[vid],
+            ctx.violation(kind or "rank-outside-tolerance", {"node": vid, "printed_rank_value": val, "power_iteration": ref[vid],
                                                      "allowed_deviation": bound(ref[vid]), "cmd": cmd})
             return
     if worst > 0.5:
@@ -670,14 +670,14 @@ def check_pagerank_top(ctx, top, ref, rel, abs_, cmd):
     for (r1, v1, i1), (r2, v2, i2) in zip(top, top[1:]):
         ctx.count("order_pairs_checked")
         if ref[i2] - ref[i1] > bound(ref[i1]) + bound(ref[i2]):
-            ctx.violation("wrong-rank-order", {"listed_before": i1, "listed_after": i2, "power_iteration": [ref[i1], ref[i2]],
+            ctx.violation(kind or "wrong-rank-order", {"listed_before": i1, "listed_after": i2, "power_iteration": [ref[i1], ref[i2]],
                                                "printed": [v1, v2], "cmd": cmd})
             return
     inset = set(ids)
     last = top[-1][2]
     for v in range(n):
         if v not in inset and ref[v] - ref[last] > bound(ref[v]) + bound(ref[last]):
-            ctx.violation("wrong-top-list", {"what": "node missing from the top list", "missing_node": v,
+            ctx.violation(kind or "wrong-top-list", {"what": "node missing from the top list", "missing_node": v,
                                              "its_power_iteration_rank": ref[v], "last_listed": last,
                                              "last_listed_power_iteration_rank": ref[last], "cmd": cmd})
             return
@@ -914,7 +914,7 @@ def case_matching(ctx):
             g.adj[a].append((nA + b, 1 if algo == "pfpAlgo" else None))
     exp = R.hopcroft_karp(nA, nB, [sorted(set(x)) for x in adjA])
     threads = pick_threads(ctx, serial=(ex == "serial"))
-    finish_sig(ctx, g, threads)
+    finish_sig(ctx, g, threads, "|" + ex)
     ctx.params.update({"numA": nA, "numB": nB})
     path = ctx.p("g.gr")
     R.write_gr(path, g)
@@ -1089,6 +1089,7 @@ def case_dist(ctx):
         tol = r.pick([1e-6, 1e-6, 1e-5, 1e-4])
         ref = R.pagerank_unnormalized(g, ALPHA)
     sm_done = False
+    rel = 0.0
     for hosts in hosts_list:
         outdir = ctx.p("out-%d" % hosts)
         os.makedirs(outdir, exist_ok=True)
@@ -1154,10 +1155,10 @@ def case_dist(ctx):
         # once per case: the shared-memory application on the same input must print the fingerprints of this result
         if not sm_done and got is not None:
             sm_done = True
-            compare_with_shared_memory(ctx, app, g, files, got, src, k)
+            compare_with_shared_memory(ctx, app, g, files, got, src, k, rel if app == "dist-pr" else 0.0)
 
 
-def compare_with_shared_memory(ctx, app, g, files, got, src, k):
+def compare_with_shared_memory(ctx, app, g, files, got, src, k, dist_rel=0.0):
     t = ctx.r.pick([1, 2, 4])
     if app in ("dist-bfs", "dist-sssp"):
         name = "bfs" if app == "dist-bfs" else "sssp"
@@ -1197,10 +1198,14 @@ def compare_with_shared_memory(ctx, app, g, files, got, src, k):
         text = ctx.app("pr-pull", args)
         if text is None:
             return
+        if dist_rel >= 0.25:
+            return      # long asynchronous run: the distributed result itself carries no useful tolerance
         ctx.count("shared_memory_comparisons")
         ref = got
-        rel, abs_ = pr_tolerances("residual", 1e-4, ref)
-        check_pagerank_top(ctx, parse_top(text), ref, 2 * rel, abs_, ctx.show_cmd([CPU_TARGETS["pr-pull"]] + args))
+        rel, abs_ = pr_tolerances("residual", 1e-6, ref)
+        # both results lie within their own allowed deviation of the fixed point
+        check_pagerank_top(ctx, parse_top(text), ref, 1.2 * (rel + dist_rel), abs_, ctx.show_cmd([CPU_TARGETS["pr-pull"]] + args),
+                           kind="differs-from-shared-memory")
 
 
 # ---------------------------------------------------------------------------------------------- plan
@@ -1222,9 +1227,19 @@ VARIANTS = {
     "maxflow": [(v, v) for v in FLOW_VARIANTS],
 }
 # graphs per variant: (quick, thorough)
-PER_VARIANT = {"bfs": (4, 24), "sssp": (3, 22), "cc": (3, 20), "mst": (8, 60), "triangles": (4, 24), "kcore": (8, 60),
-               "pr-push": (7, 50), "pr-pull": (0, 50), "mis": (4, 30), "matching": (0, 24), "maxflow": (0, 36)}
+PER_VARIANT = {"bfs": (4, 16), "sssp": (3, 14), "cc": (3, 14), "mst": (8, 40), "triangles": (4, 16), "kcore": (8, 40),
+               "pr-push": (7, 30), "pr-pull": (0, 30), "mis": (4, 20), "matching": (0, 16), "maxflow": (0, 24)}
 DIST_CASES = {"dist-bfs": 40, "dist-sssp": 40, "dist-cc": 36, "dist-kcore": 36, "dist-pr": 30}
+
+
+def comp_name(app, vname, vargs):
+    """component = application + algorithm; input modes (mst) and the serial/parallel switch of the matching
+    algorithms are part of the case signature, not of the component"""
+    if app == "mst":
+        return app
+    if app == "matching":
+        return "%s:%s" % (app, vargs[0])
+    return "%s:%s" % (app, vname)
 
 
 def build_plan(tier, seed):
@@ -1238,7 +1253,7 @@ def build_plan(tier, seed):
         per = PER_VARIANT[app][0 if tier == "quick" else 1]
         for vname, vargs in VARIANTS[app]:
             for k in range(per):
-                plan.append({"app": app, "variant": vname, "comp": app if app == "mst" else "%s:%s" % (app, vname), "args": vargs, "k": k,
+                plan.append({"app": app, "variant": vname, "comp": comp_name(app, vname, vargs), "args": vargs, "k": k,
                              "kind": kinds[ki % len(kinds)], "fn": CASE_FN[app]})
                 ki += 1
     return plan
